@@ -195,14 +195,11 @@ def parentOf (h : Heap) (x : Id) : Option Id :=
 
 /-- reading every accessor of `x` fills its caches -/
 def fill (h : Heap) (x : Id) : Heap :=
-  match h.get x with
-  | none => h
-  | some n =>
+  h.upd x fun n =>
     match n.kind with
-    | .font => h
-    | .layerSet | .layer | .glyph => h.setNode x { n with disp := dispOf h x }
-    | _ => h.setNode x { n with pLayer := layerOf h x, pLayerSet := layerSetOf h x, pFont := fontOf h x,
-                                  disp := dispOf h x }
+    | .font => n
+    | .layerSet | .layer | .glyph => { n with disp := dispOf h x }
+    | _ => { n with pLayer := layerOf h x, pLayerSet := layerSetOf h x, pFont := fontOf h x, disp := dispOf h x }
 
 /-- what `endSelfNotificationObservation` leaves of the references -/
 def Node.cleared (n : Node) : Node :=
